@@ -628,6 +628,12 @@ def builtin_call(ex, ev: Eval, node, fname):
             ev.st.pc.append(z3.Select(mem, x.z))
             return x
         raise Unsupported("next(iter(...)) over " + str(c.t))
+    if fname in ("deque", "list") and len(a) == 1 and isinstance(a[0], ast.GeneratorExp) and not node.keywords:
+        g = a[0]
+        lc = ast.ListComp(elt=g.elt, generators=g.generators)
+        ast.copy_location(lc, g)
+        ex.loop_ord[id(lc)] = ex.loop_ord[id(g)]
+        return do_listcomp(ex, ev, lc)
     if fname == "deque" and len(a) <= 1 and not node.keywords:
         if not a:
             raise Unsupported("deque() without a declared element type")
@@ -641,6 +647,18 @@ def builtin_call(ex, ev: Eval, node, fname):
             return v
         if isinstance(v.t, TDict):
             return mk_set(TSet(v.t.k), dict_dom(v), dict_card(v))
+        if isinstance(v.t, TList) and not isinstance(v.t.elem, (TList, TDict, TSet)):
+            # set(xs): membership is 'occurs in xs'; the cardinality is only bounded (duplicates collapse)
+            r = ex.new_sym(TSet(v.t.elem), "setof", ev.st)
+            kq = fresh(v.t.elem, "skey")
+            j = z3.Int("j!skey")
+            ev.st.pc.append(z3.ForAll([kq.z], z3.Select(set_mem(r), kq.z) ==
+                                      z3.Exists([j], z3.And(0 <= j, j < list_len(v), z3.Select(list_arr(v), j) == kq.z)),
+                                      patterns=[z3.Select(set_mem(r), kq.z)]))
+            ev.st.pc.append(z3.ForAll([j], z3.Implies(z3.And(0 <= j, j < list_len(v)), z3.Select(set_mem(r), z3.Select(list_arr(v), j))),
+                                      patterns=[z3.Select(list_arr(v), j)]))
+            ev.st.pc.append(z3.And(set_card(r) >= 0, set_card(r) <= list_len(v)))
+            return r
         raise Unsupported(f"set({v.t})")
     if fname == "list" and len(a) == 1:
         x = a[0]
@@ -994,12 +1012,31 @@ def do_setcomp(ex, ev, node):
     return r
 
 
-def do_dictcomp(ex, ev, node):
-    """{i: value(i) for i in range(n) if cond(i)}: domain and values pointwise"""
+def do_dictcomp(ex, ev, node, hint=None):
+    """{i: value(i) for i in range(n) if cond(i)}: domain and values pointwise;
+    {v: value for v in xs} over a list xs (no filter): the keys are the elements of xs, every key maps to value (typed by the hint)"""
     if len(node.generators) != 1:
         raise Unsupported("dict comprehension with several generators")
     gen = node.generators[0]
     it = gen.iter
+    if (hint is not None and isinstance(gen.target, ast.Name) and isinstance(node.key, ast.Name) and node.key.id == gen.target.id
+            and not gen.ifs and not (isinstance(it, ast.Call) and isinstance(it.func, ast.Name) and it.func.id == "range")):
+        xs = ev.expr(it)
+        if isinstance(xs.t, TList) and xs.t.elem == hint.k:
+            kq = fresh(hint.k, "dkey")
+            st2 = ev.st.copy()
+            st2.vars[gen.target.id] = kq
+            val = ex.expr_typed(Eval(ex, st2, ev.spec, ev.bound, ev.old, ev.result), node.value, hint.v)
+            r = ex.new_sym(hint, "dictcomp", ev.st)
+            j = z3.Int("j!dkey")
+            member = z3.Exists([j], z3.And(0 <= j, j < list_len(xs), z3.Select(list_arr(xs), j) == kq.z))
+            ev.st.pc.append(z3.ForAll([kq.z], z3.And(z3.Select(dict_dom(r), kq.z) == member,
+                                                     z3.Implies(z3.Select(dict_dom(r), kq.z), z3.Select(dict_val(r), kq.z) == coerce_to(val, hint.v).z)),
+                                      patterns=[z3.Select(dict_dom(r), kq.z)]))
+            # elements of the list are keys (the direction the existential above hides from the matcher)
+            ev.st.pc.append(z3.ForAll([j], z3.Implies(z3.And(0 <= j, j < list_len(xs)), z3.Select(dict_dom(r), z3.Select(list_arr(xs), j))),
+                                      patterns=[z3.Select(list_arr(xs), j)]))
+            return r
     if not (isinstance(it, ast.Call) and isinstance(it.func, ast.Name) and it.func.id == "range" and len(it.args) == 1
             and isinstance(gen.target, ast.Name) and isinstance(node.key, ast.Name) and node.key.id == gen.target.id):
         raise Unsupported("dict comprehension shape")
